@@ -293,7 +293,9 @@ func genC07(t *rapid.T) c07Case {
 		if d == c07DepthCap {
 			stats.exclude("nesting-depth-cap-binds")
 		}
-		core := rapid.SampledFrom([][]byte{{0x01, 0x00}, {0x41, 0x01, 0x61}, {0x01, 0xFF}, {0xA5, 0x01, 0x05}, {}}).Draw(t, "core")
+		core := rapid.SampledFrom([][]byte{{0x01, 0x00}, {0x41, 0x01, 0x61}, {0x01, 0xFF}, {0xA5, 0x01, 0x05}, {},
+			// the innermost list is one child short, and the input ends exactly where that child would begin
+			{0x01, 0x02, 0x01, 0x00}, {0x01, 0x02, 0x41, 0x00}, {0x01, 0x03, 0xA5, 0x01, 0x07, 0x21, 0x00}, {0x01, 0x01}, {0x01, 0x02, 0x41, 0x01, 0x61}}).Draw(t, "core")
 		if rapid.Bool().Draw(t, "withSiblings") {
 			// every level also holds a small leaf item beside the nested list (a well-formed, realistic shape)
 			sib := rapid.SampledFrom([][]byte{{0x21, 0x00}, {0xA5, 0x01, 0x07}, {0x25, 0x01, 0x01}, {0x91, 0x04, 0x3F, 0x80, 0, 0}, {0x61, 0x08, 0, 0, 0, 0, 0, 0, 0, 9},
